@@ -76,22 +76,22 @@ Record Base (f : fdl) (apps : list A) (buf : bytes) (tl : Z) (m : mon) : Prop :=
   b_left : m_left m = length buf;
   b_pend : (f_pending f <= length buf)%nat;
   b_bytes : all_bytes buf;
-  b_tl : 0 <= tl
+  b_tl : -1 <= tl
 }.
 
 Lemma all_bytes_app (a b : bytes) : all_bytes a -> all_bytes b -> all_bytes (a ++ b).
 Proof. unfold all_bytes. intros Ha Hb. apply Forall_app. split; assumption. Qed.
 
 Lemma m_view_x_m3 m s : m_view (x_m3 p n m s) = s_view s.
-Proof. unfold x_m3. destruct (x_new_visit p m s); reflexivity. Qed.
+Proof. unfold x_m3. destruct (x_new_visit p m s); [reflexivity|]. destruct (state_kind_eqb _ _); reflexivity. Qed.
 Lemma m_left_x_m3 m s : m_left (x_m3 p n m s) = x_left s.
-Proof. unfold x_m3. destruct (x_new_visit p m s); reflexivity. Qed.
+Proof. unfold x_m3. destruct (x_new_visit p m s); [reflexivity|]. destruct (state_kind_eqb _ _); reflexivity. Qed.
 Lemma m_lba_x_m3 m s : m_lba (x_m3 p n m s) = x_lba' p m s.
-Proof. unfold x_m3. destruct (x_new_visit p m s); reflexivity. Qed.
+Proof. unfold x_m3. destruct (x_new_visit p m s); [reflexivity|]. destruct (state_kind_eqb _ _); reflexivity. Qed.
 Lemma m_quiet_x_m3 m s : m_quiet (x_m3 p n m s) = x_quiet p m s.
-Proof. unfold x_m3. destruct (x_new_visit p m s); reflexivity. Qed.
+Proof. unfold x_m3. destruct (x_new_visit p m s); [reflexivity|]. destruct (state_kind_eqb _ _); reflexivity. Qed.
 Lemma m_start_x_m3 m s : m_start (x_m3 p n m s) = x_start m s.
-Proof. unfold x_m3. destruct (x_new_visit p m s); reflexivity. Qed.
+Proof. unfold x_m3. destruct (x_new_visit p m s); [reflexivity|]. destruct (state_kind_eqb _ _); reflexivity. Qed.
 
 Lemma fst_mon_poll m s : fst (mon_poll p n m s) = x_m3 p n m s.
 Proof. rewrite mon_poll_eq. reflexivity. Qed.
@@ -139,7 +139,7 @@ Proof.
   - discriminate E.
 Qed.
 
-Lemma base_init f0 apps : fdl_new p = Ok f0 -> length apps = n -> Base f0 apps [] 0 (mon_reset (view_of f0) 0).
+Lemma base_init f0 apps : fdl_new p = Ok f0 -> length apps = n -> Base f0 apps [] (-1) (mon_reset (view_of f0) 0).
 Proof.
   intros E Hn. destruct (fdl_new_rep (length apps) p Hbv) as (f1 & E1 & R1 & _). rewrite E in E1. injection E1 as <-.
   destruct (fdl_new_fields _ _ E) as (_ & _ & _ & P1 & Q1).
@@ -556,7 +556,7 @@ Definition J1 (n : nat) (f : fdl) (apps : list A) (buf : bytes) (tl : Z) (m : mo
   Base A p n f apps buf tl m /\ TI f tl m /\ no_stale f.
 
 Lemma J1_init n f0 apps : fdl_new p = Ok f0 -> length apps = n -> no_stale f0 ->
-  J1 n f0 apps [] 0 (mon_reset (view_of f0) 0) mon2_reset.
+  J1 n f0 apps [] (-1) (mon_reset (view_of f0) 0) mon2_reset.
 Proof.
   intros E Hn HG. split; [eapply base_init; eassumption|]. split; [|exact HG].
   destruct (fdl_new_fields _ _ E) as (S1 & _ & L1 & _).
@@ -572,19 +572,19 @@ Proof.
 Qed.
 
 Lemma J1_poll n f apps buf tl m g now busy nb f' o apps' calls :
-  J1 n f apps buf tl m g -> tl <= now -> time_ok now -> all_bytes nb ->
+  J1 n f apps buf tl m g -> tl < now -> time_ok now -> all_bytes nb ->
   poll ops f now (mkPhyIn busy (buf ++ nb)) apps = Ok (f', o, apps', calls) -> no_stale f' ->
   J1 n f' apps' (rx_left o) now (fst (mon_poll p n m (poll_event now busy (buf ++ nb) f' o calls)))
                                 (fst (mon_poll2 p n m g (poll_event now busy (buf ++ nb) f' o calls))).
 Proof.
-  intros (HB & HT & HG) Hle Hnow Hnb E HG'.
+  intros (HB & HT & HG) Hlt Hnow Hnb E HG'. assert (Hle : tl <= now) by lia.
   split; [eapply base_poll; eassumption|]. split; [|exact HG'].
   eapply ti_poll; eassumption.
 Qed.
 
 (* C01: no rule of C01 fires on a transcript of the model, outside the known class `no_stale` *)
 Theorem c01_oracle_sound (apps : list A) (ins : list minput) :
-  ins_ok 0 ins -> transcript_ok A ops p no_stale apps ins ->
+  ins_ok (-1) ins -> transcript_ok A ops p no_stale apps ins ->
   forall k r, In (k, r) (monitor p (length apps) (model_transcript A ops p apps ins)) -> rule_prop r <> PC01.
 Proof.
   intros Hok Hrun.
@@ -593,7 +593,7 @@ Proof.
   - intros a f apps0 buf tl m g f' HJ E HG. exact (J1_api _ _ _ _ _ _ _ _ _ HJ E HG).
   - intros f apps0 buf tl m g now busy nb f' o apps' calls HJ Hle Hnow Hnb E HG'.
     split; [|split; [|exact (J1_poll _ _ _ _ _ _ _ _ _ _ _ _ _ _ HJ Hle Hnow Hnb E HG')]].
-    + destruct HJ as (HB & HT & HG).
+    + destruct HJ as (HB & HT & HG). assert (Hle' : tl <= now) by lia.
       apply mon_poll_errs_other; try discriminate.
       * intros _. eapply c01_ok; eassumption.
       * apply x_fold_other; discriminate.
@@ -603,7 +603,7 @@ Qed.
 
 (* C06: the rule of C06 (the claim after the time-out) never fires, outside the same known class *)
 Theorem c06_oracle_sound (apps : list A) (ins : list minput) :
-  ins_ok 0 ins -> transcript_ok A ops p no_stale apps ins ->
+  ins_ok (-1) ins -> transcript_ok A ops p no_stale apps ins ->
   forall k r, In (k, r) (monitor p (length apps) (model_transcript A ops p apps ins)) -> rule_prop r <> PC06.
 Proof.
   intros Hok Hrun.
@@ -612,7 +612,7 @@ Proof.
   - intros a f apps0 buf tl m g f' HJ E HG. exact (J1_api _ _ _ _ _ _ _ _ _ HJ E HG).
   - intros f apps0 buf tl m g now busy nb f' o apps' calls HJ Hle Hnow Hnb E HG'.
     split; [|split; [|exact (J1_poll _ _ _ _ _ _ _ _ _ _ _ _ _ _ HJ Hle Hnow Hnb E HG')]].
-    + destruct HJ as (HB & HT & HG).
+    + destruct HJ as (HB & HT & HG). assert (Hle' : tl <= now) by lia.
       apply mon_poll_errs_other; try discriminate.
       * intros _. eapply c06_ok; eassumption.
       * apply x_fold_other; discriminate.
@@ -648,7 +648,7 @@ Proof.
     assert (Hrx : all_bytes (buf ++ nb)) by (apply all_bytes_app; [exact (b_bytes _ _ _ _ _ _ _ _ HB)|exact Hnb]).
     assert (Hr : Rep (length apps) f) by exact (b_rep _ _ _ _ _ _ _ _ HB).
     destruct (poll_rep_step A ops Happs f now (mkPhyIn busy (buf ++ nb)) apps Hr Hnow Hrx) as (f' & o & apps' & calls & Ep & _).
-    rewrite Ep in Hin.
+    rewrite Ep in Hin. assert (Htl' : tl <= now) by lia.
     assert (HB' : Base A p n f' apps' (rx_left o) now (fst (mon_poll p n m (poll_event now busy (buf ++ nb) f' o calls)))) by (eapply base_poll; eassumption).
     cbn [monitor_from mon_event] in Hin.
     assert (H1 : onlyp (is_not PC05) (snd (mon_poll p n m (poll_event now busy (buf ++ nb) f' o calls))))
@@ -664,7 +664,7 @@ Proof.
 Qed.
 
 Theorem c05_oracle_sound (apps : list A) (ins : list minput) :
-  ins_ok 0 ins ->
+  ins_ok (-1) ins ->
   forall k r, In (k, r) (monitor p (length apps) (model_transcript A ops p apps ins)) -> rule_prop r <> PC05.
 Proof.
   intros Hok k r Hin. unfold monitor in Hin. destruct (builder_validb p); [|contradiction].
